@@ -180,6 +180,34 @@ class Histories(Facet):
                             f"row {ri} column {cname}: file has {g[col]!r}, expected {e[col]!r} (row {g} vs {e}; {case['objectives']} objectives, values {case['values']})",
                         )
                         return
+            if case["only_best"]:
+                # "only strict improvements when so configured", judged independently of the flags
+                # the tracker hands out: the first registered individual and every one whose
+                # (direction-adjusted) aggregate beats all earlier ones must have a row; one that is
+                # worse than an earlier one must not (ties: no row for single-objective problems)
+                single = case["objectives"] == 1 and not case.get("force_multi")
+
+                def agg(vec):
+                    return sum(-v if m else v for v, m in zip(vec, case["minimize"]))
+
+                best = None
+                for j, (idx, flag) in enumerate(flags):
+                    a = agg(case["values"][idx])
+                    must = best is None or a > best
+                    may = must or (not single and a == best)
+                    if flag and not may:
+                        rec.fail(
+                            "C20/best-only/row-for-an-individual-that-is-no-improvement",
+                            f"best-only log: registration #{j} (individual {idx}, aggregate {a}) got a row although an earlier individual had aggregate {best}; values {case['values']}, minimize {case['minimize']}, batches {case['batches']}, flags {flags}",
+                        )
+                        return
+                    if must and not flag:
+                        rec.fail(
+                            "C20/best-only/improvement-without-a-row",
+                            f"best-only log: registration #{j} (individual {idx}, aggregate {a}) improves on everything before (best {best}) but got no row; values {case['values']}, minimize {case['minimize']}, flags {flags}",
+                        )
+                        return
+                    best = a if best is None else max(best, a)
             if is_nontrivial(case):
                 rec.nontrivial(case)
         finally:
